@@ -57,6 +57,7 @@ type Stats struct {
 	AssertChecks int
 	Deadlocks    int
 	Pruned       int
+	Shortcuts    int
 }
 
 type Violation struct {
@@ -412,14 +413,16 @@ func (in *Interp) assertProp(c *Term, label string) {
 	}
 	if in.replaying() {
 		in.trace = append(in.trace, in.prefix[len(in.trace)])
-		if !c.IsFalse() {
-			in.st.pc = append(in.st.pc, c)
-		} else {
-			panic(pathEndSig{"assertion failed (replay)"})
+		if in.prefix[len(in.trace)-1].Note != "violated" && !c.IsFalse() {
+			in.pushPC(c)
 		}
 		return
 	}
 	in.stats.AssertChecks++
+	if in.known(c) {
+		in.trace = append(in.trace, Decision{N: 1, Kind: "assert"})
+		return
+	}
 	neg := in.tc.Not(c)
 	r := Sat
 	if !c.IsFalse() {
@@ -431,17 +434,17 @@ func (in *Interp) assertProp(c *Term, label string) {
 	if r == Sat {
 		in.recordViolation(label, "assertion violated", append(append([]*Term{}, in.st.pc...), neg))
 	}
-	in.trace = append(in.trace, Decision{N: 1, Kind: "assert"})
-	if c.IsFalse() {
-		panic(pathEndSig{"assertion failed"})
-	}
-	// continue under the assertion (if it can hold at all)
 	if r == Sat {
-		if in.solver.Check(in.st.pc, c) != Sat {
-			panic(pathEndSig{"assertion failed on every value"})
-		}
+		in.trace = append(in.trace, Decision{N: 1, Kind: "assert", Note: "violated"})
+		return
 	}
-	in.st.pc = append(in.st.pc, c)
+	in.trace = append(in.trace, Decision{N: 1, Kind: "assert"})
+	if r == Sat {
+		// an assertion observes, it does not assume: the path continues with an
+		// unchanged path condition so that later assertions are not masked
+		return
+	}
+	in.pushPC(c)
 }
 
 // recordViolation extracts a model for the given (satisfiable) constraint set.
